@@ -123,6 +123,24 @@ def gen_sets(ctx):
     return sets
 
 
+CARRIERS_FN = [(b'foreach(t,function(v)\n', b'end)\n', 8), (b't={k=function(a)\n', b'end,2}\n', 9), (b'x=(function()\n', b'end)()\n', 6),
+               (b'a[function()\n', b'end]=1\n', 5), (b'f(1,{function(...)\n', b'end},(2))\n', 9)]
+
+
+def nested_cases(cases, rnd, n):
+    """programs with line-scoped shorthands placed inside a function literal that itself sits inside open brackets
+    (a callback argument, a table field, a parenthesised or indexed expression): the line scopes are the generator's,
+    shifted by the carrier's tokens"""
+    pool = [c for c in cases if c[2]]
+    out = []
+    for k in range(min(n, len(pool))):
+        name, src, scopes = pool[rnd.randrange(len(pool))]
+        pre, suf, npre = CARRIERS_FN[k % len(CARRIERS_FN)]
+        body = src if src.endswith(b'\n') else src + b'\n'
+        out.append(('nested:%s' % name, pre + body + suf, [[a + npre, b + npre] for a, b in scopes]))
+    return out
+
+
 def fixture_cases(ctx, rnd):
     out = []
     for name, src in fixture_sources():
@@ -227,6 +245,7 @@ def run(ctx):
     sub = cases[::7]
     judge(ctx, sub, ('keepall', 'keepfile'), keepfiles)
     judge(ctx, fixture_cases(ctx, rnd), cfgs, keepfiles)
+    judge(ctx, nested_cases(cases, rnd, 150 if ctx.quick else 2000) + minify.operator_adjacency_cases(), ('default',), keepfiles)
     layer_i(ctx)
     canaries(ctx)
     ctx.evaluations += len(cases) + 2 * len(sub)
